@@ -12,12 +12,20 @@
 that an unknown failure is never hidden behind a known one."""
 import re
 import json
+import math
+import random
+import struct
 
 # ------------------------------------------------------------------------------------------------
 # C03: netlist specs
 # ------------------------------------------------------------------------------------------------
-RISKY_C03 = ['undefined_direction', 'one_pin_array_port', 'float_property', 'nonalpha_bus_name',
-             'bitlike_scalar_name', 'quote_in_string_property', 'glob_name']
+RISKY_C03 = ['nonalpha_bus_name', 'bitlike_scalar_name', 'glob_name']
+# shapes that used to break the round trip (C03-K1, K2, K3, K6: repaired in the writer / reader) and are now
+# part of the ordinary generation: any number of them in one netlist, together with a risky feature or not
+SHAPES_C03 = ['undefined_direction', 'one_pin_array_port', 'float_property', 'quote_in_string_property']
+FLOATS = [1000.0, 0.5, 2.5e-9, 0.1, 0.3, -123.456, 1e22, 1e23, 1.0 / 3, 5e-324, 1.7976931348623157e308, 0.0, -2.5,
+          6.02214076e23, 1e-7, 123456789.125]
+QUOTED = ['say "hi"', '"', '""', 'a"b"c', '100%', '%34%', '%%', '% 34 %', 'x%34 37%y', '"%"', '%"%', "8'h\"", '%37%34%']
 
 PLAIN_NAMES = ['a', 'b', 'clk', 'data', 'q', 'sel', 'x1', 'y_2', 'Net', 'w']
 ODD_NAMES = ['a.b', 'n$1', 'my net', 'x/y', 'sig<3>', 'p:q', 'UPPER', 'MiXed', 'a-b', 'v(1)', 'e=mc2', '3d', '_lead',
@@ -164,6 +172,7 @@ def gen_netlist_spec(rng, risky=None, depth=None, size=1.0):
     if risky:
         apply_risky_c03(spec, rng, risky)
     spec['risky'] = risky
+    apply_shapes_c03(spec, random.Random(rng.getrandbits(64)))
     return spec
 
 
@@ -171,24 +180,43 @@ def _all_cells(spec):
     return [c for L in spec['libraries'] for c in L['cells']]
 
 
+def _some_float(rng):
+    if rng.random() < 0.6:
+        return rng.choice(FLOATS)
+    while True:
+        v = struct.unpack('d', struct.pack('Q', rng.getrandbits(64)))[0]
+        if math.isfinite(v) and v != 0.0:
+            return v
+
+
+def apply_shapes_c03(spec, rng):
+    """undefined port directions, one-pin array ports, float properties, string properties with double
+    quotes and percent signs: in about half of the netlists, each with its own rate"""
+    if rng.random() < 0.45:
+        return
+    cells = _all_cells(spec)
+    rate = {k: rng.choice([0.0, 0.1, 0.3]) for k in SHAPES_C03}
+    rate['float_property'] = rng.choice([0.0, 0.0, 0.05, 0.2])      # floats are outside the whole-file model: keep most texts comparable
+    for c in cells:
+        for p in c['ports']:
+            if rng.random() < rate['undefined_direction']:
+                p['direction'] = 'undefined'
+            if p['width'] == 1 and rng.random() < rate['one_pin_array_port']:
+                p['array'] = True
+                p['lower'] = rng.choice([0, 5])
+        for x in c['instances']:
+            if rng.random() < rate['float_property']:
+                x['properties'].append({'identifier': 'DELAY', 'value': {'float': _some_float(rng)}})
+            if rng.random() < rate['quote_in_string_property']:
+                x['properties'].append({'identifier': 'MSG', 'value': rng.choice(QUOTED)})
+
+
 def apply_risky_c03(spec, rng, risky):
     cells = _all_cells(spec)
     ports = [p for c in cells for p in c['ports']]
     insts = [x for c in cells for x in c['instances']]
     nets = [n for c in cells for n in c['nets']]
-    if risky == 'undefined_direction' and ports:
-        rng.choice(ports)['direction'] = 'undefined'
-    elif risky == 'one_pin_array_port':
-        one = [p for p in ports if p['width'] == 1]
-        if one:
-            p = rng.choice(one)
-            p['array'] = True
-            p['lower'] = rng.choice([0, 5])
-    elif risky == 'float_property' and insts:
-        rng.choice(insts)['properties'].append({'identifier': 'DELAY', 'value': {'float': rng.choice([1000.0, 0.5, 2.5e-9])}})
-    elif risky == 'quote_in_string_property' and insts:
-        rng.choice(insts)['properties'].append({'identifier': 'MSG', 'value': 'say "hi"'})
-    elif risky == 'nonalpha_bus_name':
+    if risky == 'nonalpha_bus_name':
         bus = [n for n in nets if n['width'] > 1 or n['array']]
         if bus:
             n = rng.choice(bus)
@@ -268,8 +296,8 @@ def build_netlist(spec):
     return n
 
 
-def spec_features(spec):
-    """which risky features a spec actually contains (computed from the spec, not from the flag)"""
+def spec_shapes(spec):
+    """which of the SHAPES_C03 a spec contains"""
     f = set()
     for c in _all_cells(spec):
         for p in c['ports']:
@@ -281,8 +309,15 @@ def spec_features(spec):
             for pr in x.get('properties', []):
                 if isinstance(pr['value'], dict):
                     f.add('float_property')
-                if isinstance(pr['value'], str) and '"' in pr['value']:
+                if isinstance(pr['value'], str) and ('"' in pr['value'] or '%' in pr['value']):
                     f.add('quote_in_string_property')
+    return f
+
+
+def spec_features(spec):
+    """which risky features a spec actually contains (computed from the spec, not from the flag)"""
+    f = set()
+    for c in _all_cells(spec):
         for n in c['nets']:
             bus = n['width'] > 1 or n.get('array')
             if bus and n['name'] and not n['name'][0].isalpha():
@@ -446,7 +481,14 @@ def _dprops(rng):
         nm = _named(rng, used, 0.25, 'P')
         kind = rng.choice(['string', 'integer', 'boolean'])
         if kind == 'string':
-            v = rng.choice(['', "8'hA5", 'SLICE_X1Y2', 'two words', '(paren)', 'semi;colon', 'per%cent', "it's"])
+            v = rng.choice(['', "8'hA5", 'SLICE_X1Y2', 'two words', '(paren)', 'semi;colon', 'per%cent', "it's", '100%', '% 5'])
+            if rng.random() < 0.25:
+                # escapes inside a string value: %n n ..% stands for the characters with these codes; `text`
+                # is what the file holds, `value` what it means
+                text, v = rng.choice([('say %34%hi%34%', 'say "hi"'), ('100%37%', '100%'), ('%34 37%', '"%'), ('a% 65  66 %b', 'aABb'),
+                                      ('%37%34%37%', '%34%'), ('x%34%', 'x"'), ('%9%tab', '\ttab')])
+                out.append(dict(nm, kind=kind, value=v, text=text))
+                continue
         elif kind == 'integer':
             v = rng.choice([0, 1, -12, 255, 2 ** 35, -2 ** 70])
         else:
@@ -709,7 +751,7 @@ def render(design, rng):
 
     def prop(p):
         if p['kind'] == 'string':
-            tv = w.form(rng.choice(['string', 'String']), qstr(p['value']))
+            tv = w.form(rng.choice(['string', 'String']), qstr(p.get('text', p['value'])))
         elif p['kind'] == 'integer':
             tv = w.form(rng.choice(['integer', 'Integer']), str(p['value']))
         else:
